@@ -256,7 +256,93 @@ var counterPairs = []counterPair{
 	{"ConcurrentMap", "count", "shard", "item"},
 }
 
+// ensureCounterPairs finds the two counter/table pairs by the shape of the types, so that renaming an unexported field
+// does not lose them: Chan's integer field next to its map field; ConcurrentMap's integer field and the map field of
+// the record its shard table holds.
+func (c *C) ensureCounterPairs() {
+	if c.pairsDone {
+		return
+	}
+	c.pairsDone = true
+	firstField := func(st *types.Struct, want func(types.Type) bool) (string, types.Type) {
+		for i := 0; i < st.NumFields(); i++ {
+			if want(st.Field(i).Type()) {
+				return st.Field(i).Name(), st.Field(i).Type()
+			}
+		}
+		return "", nil
+	}
+	isMap := func(t types.Type) bool { _, ok := t.Underlying().(*types.Map); return ok }
+	// the counters themselves: the field handed to sync/atomic Add*, the field that is stored as itself +/- 1
+	counterOf := map[string]string{}
+	for _, fn := range c.P.allFuncs("memdb") {
+		for _, b := range fn.Blocks {
+			for _, in := range b.Instrs {
+				switch x := in.(type) {
+				case *ssa.Call:
+					if cf := x.Call.StaticCallee(); cf != nil && cf.Pkg != nil && cf.Pkg.Pkg.Path() == "sync/atomic" && strings.HasPrefix(cf.Name(), "Add") && len(x.Call.Args) == 2 {
+						if fa, ok := x.Call.Args[0].(*ssa.FieldAddr); ok {
+							counterOf[namedOf(fa.X.Type())] = fieldName(fa)
+						}
+					}
+				case *ssa.Store:
+					fa, ok := x.Addr.(*ssa.FieldAddr)
+					if !ok {
+						continue
+					}
+					if bo, ok := x.Val.(*ssa.BinOp); ok && (bo.Op == token.ADD || bo.Op == token.SUB) {
+						if k, ok := constInt(bo.Y); ok && k == 1 {
+							if ld, ok := bo.X.(*ssa.UnOp); ok {
+								if f2, ok := ld.X.(*ssa.FieldAddr); ok && f2.Field == fa.Field && namedOf(f2.X.Type()) == namedOf(fa.X.Type()) {
+									if _, have := counterOf[namedOf(fa.X.Type())]; !have {
+										counterOf[namedOf(fa.X.Type())] = fieldName(fa)
+									}
+								}
+							}
+						}
+					}
+				}
+			}
+		}
+	}
+	var pairs []counterPair
+	if ch := c.P.NamedType("memdb", "Chan"); ch != nil {
+		if st, ok := ch.Underlying().(*types.Struct); ok {
+			cf := counterOf["Chan"]
+			mf, _ := firstField(st, isMap)
+			if cf != "" && mf != "" {
+				pairs = append(pairs, counterPair{"Chan", cf, "Chan", mf})
+			}
+		}
+	}
+	if cm := c.P.NamedType("memdb", "ConcurrentMap"); cm != nil {
+		if st, ok := cm.Underlying().(*types.Struct); ok {
+			cf := counterOf["ConcurrentMap"]
+			_, tt := firstField(st, func(t types.Type) bool { _, ok := t.Underlying().(*types.Slice); return ok })
+			if sl, ok := tt.(*types.Slice); ok && cf != "" {
+				if sh, ok := derefNamed(sl.Elem()); ok {
+					if sst, ok := sh.Underlying().(*types.Struct); ok {
+						if mf, _ := firstField(sst, isMap); mf != "" {
+							pairs = append(pairs, counterPair{"ConcurrentMap", cf, sh.Obj().Name(), mf})
+						}
+					}
+				} else if sh, ok := sl.Elem().(*types.Named); ok {
+					if sst, ok := sh.Underlying().(*types.Struct); ok {
+						if mf, _ := firstField(sst, isMap); mf != "" {
+							pairs = append(pairs, counterPair{"ConcurrentMap", cf, sh.Obj().Name(), mf})
+						}
+					}
+				}
+			}
+		}
+	}
+	if len(pairs) == 2 {
+		counterPairs = pairs
+	}
+}
+
 var rR20n = RuleRef{Name: "R20n", Doc: "a counter mirrors its table: Chan.numSubs counts the entries of Chan.conns and ConcurrentMap.count those of the shard maps; outside constructors the counter only moves by one, a decrement is control-dependent on a successful comma-ok lookup of the key in the table and goes with the delete of that key, an increment is control-dependent on a failed lookup (or uses a freshly generated id) and goes with the insertion of that key; so the counter equals the number of entries and never goes negative", Run: func(c *C) {
+	c.ensureCounterPairs()
 	n := 0
 	for _, fn := range c.P.allFuncs("memdb") {
 		ord := 0
@@ -347,6 +433,7 @@ var rR20n = RuleRef{Name: "R20n", Doc: "a counter mirrors its table: Chan.numSub
 						}
 						cond, neg = u.X, !neg
 					}
+					cond, neg = stripBoolCompare(cond, neg)
 					mc, kc, tbl, ok := commaOkLookup(cond)
 					if !ok || !isTable(tbl) {
 						continue
